@@ -44,8 +44,20 @@ func (e *Env) call(x *ECall) Val {
 	switch name {
 	case "old":
 		c := *e
+		if !e.inOld {
+			c.nowHeap = e.heap
+		}
 		c.heap = e.old
 		c.inOld = true
+		return c.tr(x.Args[0])
+	case "now":
+		// inside old(...): evaluate the argument in the current (post) state, e.g. old(root(now(q.Link)))
+		if !e.inOld || e.nowHeap == nil {
+			return e.tr(x.Args[0])
+		}
+		c := *e
+		c.heap = e.nowHeap
+		c.inOld = false
 		return c.tr(x.Args[0])
 	case "len", "cap":
 		v := arg(0)
@@ -464,7 +476,22 @@ func (g *Gen) specFunc(sf *SpecFunc) *specDef {
 			}
 		}
 	}
-	if sf.Rec || (!transparent && (strings.Contains(body.S, "(forall ") || strings.Contains(body.S, "(exists "))) {
+	unfoldGround := false
+	if g.FC != nil && sf.Rec {
+		for _, n := range strings.Fields(g.FC.Opts["unfold"]) {
+			if n == sf.Name {
+				unfoldGround = true
+			}
+		}
+	}
+	if unfoldGround {
+		// recursive spec function in ground-unfolding mode: an uninterpreted symbol; every application outside a
+		// quantifier is unfolded exactly once (no quantified definitional axiom, hence no matching loop)
+		g.declFun(d.name, sorts, d.retSort)
+		d.unfoldBody = d.name + "!body"
+		d.unfolded = map[string]bool{}
+		g.decl(fmt.Sprintf("(define-fun %s (%s) %s %s)", d.unfoldBody, strings.Join(ps, " "), d.retSort, body.S))
+	} else if sf.Rec || (!transparent && (strings.Contains(body.S, "(forall ") || strings.Contains(body.S, "(exists "))) {
 		// recursive or quantified bodies stay opaque: an uninterpreted symbol plus a definitional
 		// axiom triggered on applications (so equal arguments give equal values by congruence)
 		g.declFun(d.name, sorts, d.retSort)
@@ -511,6 +538,12 @@ func (e *Env) specCall(sf *SpecFunc, x *ECall) Val {
 	s := d.name
 	if len(as) > 0 {
 		s = app(d.name, as...)
+	}
+	if d.unfoldBody != "" && !d.translating && !d.unfolded[s] && (e.inQuant == 0 || !strings.Contains(s, "q!")) && !strings.Contains(s, "p!") {
+		d.unfolded[s] = true
+		// an instance of the definition: valid everywhere, so it goes with the declarations (obligations
+		// created before this point see it too)
+		g.decl(fmt.Sprintf("(assert %s)", eq(s, app(d.unfoldBody, as...))))
 	}
 	return Val{S: s, Sort: d.retSort, GT: d.retGT, ElemGT: d.retElem}
 }
